@@ -283,6 +283,167 @@ def swap_independent(tree):
     return tree
 
 
+def ifelse_to_condexpr(tree):
+    """if c: x = a  else: x = b   ->   x = a if c else b      (same single target, one statement per branch)"""
+    tree = copy.deepcopy(tree)
+
+    class Tr(ast.NodeTransformer):
+        def visit_If(self, node):
+            self.generic_visit(node)
+            if len(node.body) == 1 and len(node.orelse) == 1 and isinstance(node.body[0], ast.Assign) and isinstance(node.orelse[0], ast.Assign):
+                a, b = node.body[0], node.orelse[0]
+                if len(a.targets) == 1 and len(b.targets) == 1 and ast.dump(a.targets[0]) == ast.dump(b.targets[0]) \
+                        and not any(isinstance(n, (ast.NamedExpr, ast.Await, ast.Yield)) for n in ast.walk(node)):
+                    return ast.copy_location(ast.Assign(targets=a.targets, value=ast.IfExp(test=node.test, body=a.value, orelse=b.value)), node)
+            return node
+    out = Tr().visit(tree)
+    ast.fix_missing_locations(out)
+    return out
+
+
+def condexpr_to_ifelse(tree):
+    """x = a if c else b   ->   if c: x = a  else: x = b"""
+    tree = copy.deepcopy(tree)
+
+    class Tr(ast.NodeTransformer):
+        def visit_Assign(self, node):
+            if isinstance(node.value, ast.IfExp) and len(node.targets) == 1 and isinstance(node.targets[0], (ast.Name, ast.Attribute)):
+                t = node.targets[0]
+                mk = lambda v: ast.Assign(targets=[copy.deepcopy(t)], value=v)
+                return ast.copy_location(ast.If(test=node.value.test, body=[mk(node.value.body)], orelse=[mk(node.value.orelse)]), node)
+            return node
+    out = Tr().visit(tree)
+    ast.fix_missing_locations(out)
+    return out
+
+
+def drop_else_after_return(tree):
+    """if c: ...; return a   else: REST     ->   if c: ...; return a    REST     (the branch ends in return / raise / continue / break)"""
+    tree = copy.deepcopy(tree)
+
+    def fix(body):
+        out = []
+        for st in body:
+            for field in ("body", "orelse", "finalbody"):
+                b_ = getattr(st, field, None)
+                if isinstance(b_, list) and b_ and isinstance(b_[0], ast.stmt):
+                    setattr(st, field, fix(b_))
+            if isinstance(st, ast.Try):
+                for h in st.handlers:
+                    h.body = fix(h.body)
+            if isinstance(st, ast.If) and st.orelse and st.body and isinstance(st.body[-1], (ast.Return, ast.Raise, ast.Continue, ast.Break)):
+                rest = st.orelse
+                st.orelse = []
+                out.append(st)
+                out.extend(rest)
+            else:
+                out.append(st)
+        return out
+    for n in ast.walk(tree):
+        if isinstance(n, (ast.FunctionDef, ast.AsyncFunctionDef)):
+            pass
+    tree.body = fix(tree.body)
+    ast.fix_missing_locations(tree)
+    return tree
+
+
+def merge_nested_ifs(tree):
+    """if a: if b: S   ->   if a and b: S      (neither has an else; the inner `if` is the whole body)"""
+    tree = copy.deepcopy(tree)
+
+    class Tr(ast.NodeTransformer):
+        def visit_If(self, node):
+            self.generic_visit(node)
+            if not node.orelse and len(node.body) == 1 and isinstance(node.body[0], ast.If) and not node.body[0].orelse:
+                inner = node.body[0]
+                node.test = ast.BoolOp(op=ast.And(), values=[node.test, inner.test])
+                node.body = inner.body
+            return node
+    out = Tr().visit(tree)
+    ast.fix_missing_locations(out)
+    return out
+
+
+def split_and_ifs(tree):
+    """if a and b: S   ->   if a: if b: S      (no else)"""
+    tree = copy.deepcopy(tree)
+
+    class Tr(ast.NodeTransformer):
+        def visit_If(self, node):
+            self.generic_visit(node)
+            if not node.orelse and isinstance(node.test, ast.BoolOp) and isinstance(node.test.op, ast.And) and len(node.test.values) == 2:
+                a, b = node.test.values
+                return ast.copy_location(ast.If(test=a, body=[ast.If(test=b, body=node.body, orelse=[])], orelse=[]), node)
+            return node
+    out = Tr().visit(tree)
+    ast.fix_missing_locations(out)
+    return out
+
+
+def flip_comparisons(tree):
+    """a == b -> b == a,  a != b -> b != a,  a < b -> b > a ...  (both operands are names, attribute paths, constants or len() of those:
+    no side effects, so the evaluation order does not matter);  `not x in y` is already `x not in y` in the ast"""
+    tree = copy.deepcopy(tree)
+    flip = {ast.Eq: ast.Eq, ast.NotEq: ast.NotEq, ast.Lt: ast.Gt, ast.Gt: ast.Lt, ast.LtE: ast.GtE, ast.GtE: ast.LtE}
+
+    def simple(n):
+        if isinstance(n, ast.Constant):
+            return True
+        if isinstance(n, ast.Call) and isinstance(n.func, ast.Name) and n.func.id == "len" and len(n.args) == 1:
+            return _pure_path(n.args[0])
+        return _pure_path(n)
+    for n in ast.walk(tree):
+        if isinstance(n, ast.Compare) and len(n.ops) == 1 and type(n.ops[0]) in flip and simple(n.left) and simple(n.comparators[0]):
+            n.left, n.comparators[0] = n.comparators[0], n.left
+            n.ops[0] = flip[type(n.ops[0])]()
+    ast.fix_missing_locations(tree)
+    return tree
+
+
+def alias_self_attributes(tree):
+    """a method that reads `self.<attr>` at least twice and never stores to it (nor calls anything on `self` that could) gets a local
+    alias bound at the top: conservative version - only attributes that no function of the module ever assigns outside __init__/__post_init__"""
+    tree = copy.deepcopy(tree)
+    assigned_late = set()
+    for cls in [n for n in tree.body if isinstance(n, ast.ClassDef)]:
+        for m in [x for x in cls.body if isinstance(x, ast.FunctionDef)]:
+            for n in ast.walk(m):
+                if isinstance(n, ast.Attribute) and isinstance(n.ctx, (ast.Store, ast.Del)) and isinstance(n.value, ast.Name) and n.value.id == "self" \
+                        and m.name not in ("__init__", "__post_init__"):
+                    assigned_late.add(n.attr)
+    counter = [0]
+    for cls in [n for n in tree.body if isinstance(n, ast.ClassDef)]:
+        for m in [x for x in cls.body if isinstance(x, ast.FunctionDef)]:
+            if m.name in ("__init__", "__post_init__") or not m.args.args or m.args.args[0].arg != "self":
+                continue
+            if any(isinstance(n, (ast.Lambda, ast.FunctionDef)) and n is not m for n in ast.walk(m)):
+                continue
+            reads = {}
+            stored = set()
+            for n in ast.walk(m):
+                if isinstance(n, ast.Attribute) and isinstance(n.value, ast.Name) and n.value.id == "self":
+                    if isinstance(n.ctx, ast.Load):
+                        reads.setdefault(n.attr, []).append(n)
+                    else:
+                        stored.add(n.attr)
+            methods = {x.name for x in cls.body if isinstance(x, ast.FunctionDef)}
+            for attr, sites in reads.items():
+                if len(sites) < 2 or attr in stored or attr in assigned_late or attr in methods:
+                    continue
+                nm = _fresh(f"_{attr}_al", counter)
+                for site in sites:
+                    site_parent_fix = site
+                    site_parent_fix.__class__ = ast.Name
+                    site_parent_fix.__dict__.clear()
+                    site_parent_fix.id = nm
+                    site_parent_fix.ctx = ast.Load()
+                k = 1 if m.body and isinstance(m.body[0], ast.Expr) and isinstance(getattr(m.body[0], "value", None), ast.Constant) else 0
+                m.body.insert(k, ast.Assign(targets=[ast.Name(id=nm, ctx=ast.Store())],
+                                            value=ast.Attribute(value=ast.Name(id="self", ctx=ast.Load()), attr=attr, ctx=ast.Load())))
+    ast.fix_missing_locations(tree)
+    return tree
+
+
 MECHANICAL = [
     ("list comprehensions assigned to a local rewritten as append loops", comp_to_loop),
     ("every `if` condition evaluated into a temporary first", cond_to_temp),
@@ -293,4 +454,11 @@ MECHANICAL = [
     ("every non-trivial `return <expr>` moved into a new private module-level helper", extract_returns),
     ("`x = []` + append loop rewritten as a list comprehension", loop_to_comp),
     ("adjacent independent simple assignments swapped", swap_independent),
+    ("`if c: x = a else: x = b` rewritten as a conditional expression", ifelse_to_condexpr),
+    ("`x = a if c else b` rewritten as an if / else statement", condexpr_to_ifelse),
+    ("`else` dropped after a branch that ends in return / raise / continue / break", drop_else_after_return),
+    ("nested `if a: if b:` merged into `if a and b:`", merge_nested_ifs),
+    ("`if a and b:` split into nested ifs", split_and_ifs),
+    ("operands of side-effect-free comparisons swapped", flip_comparisons),
+    ("read-only `self.<attr>` chains replaced by a local alias bound at the top of the method", alias_self_attributes),
 ]
